@@ -155,8 +155,11 @@ Fixpoint run_r (e : denv) (abort : bool) (st : rstmt) (s : cst) {struct st} : bo
     | x :: t => let '(ret, s') := run_r e abort x s in if ret then (true, s') else go t s'
     end in
   match st with
-  | RIfAbortReturn => (abort, s)
+  | RIfAbort b => if abort then block b s else (false, s)
   | RIfStage b => block b s                                           (* the request id is known: stage > 0 *)
+  | RDelActive => if is_active (d_reqid e) s then (false, with_active s (remove1 (d_reqid e) (active s)))
+                  else (true, dropped s)                              (* KeyError out of reportViolation: not a Violation, the
+                                                                         catch-all of dataReceived drops the connection *)
   | RCallFailed => match call_failed e false (d_reqid e) s with
                    | XOk s' | XReturn s' => (false, s')
                    | XRaise s' => (true, dropped s')                  (* an exception out of reportViolation: BananaError *)
